@@ -1,4 +1,5 @@
 import Hive.Proofs.Seq
+import Hive.Gen.C07_Skel
 /-!
 # C07 — sequence numbers are never reused across crashes and restarts
 
@@ -150,6 +151,26 @@ theorem C07_old_release_witness :
     let s2 := oldRelease (step s1 (.new 1)).1
     (step (step s2 (.new 1)).1 .next).2 = .num 0 := by
   decide
+
+/-! ### Regenerated tie: the store-call / lock skeleton the model was written against
+
+`Hive/Gen/C07_Skel.lean` is regenerated from kvstore/sequence.go on every run.  The model's crash
+points (one store read, then one store write in `update`; one store write in `Release`; everything
+under the object's mutex; `Release` returning early when no lease is held) are exactly these
+skeletons; a change of the code's structure breaks these obligations. -/
+open Hive.Gen.C07Skel in
+theorem C07_skeleton_next : skel_Sequence_Next =
+    ["lock seq", "defer unlock seq", "if{", "helper update", "if{", "return", "}if", "}if", "return"] := by decide
+
+open Hive.Gen.C07Skel in
+theorem C07_skeleton_release : skel_Sequence_Release =
+    ["lock seq", "defer unlock seq", "if{", "return", "}if", "call seq.store.Set", "if{", "return", "}if", "return"] := by
+  decide
+
+open Hive.Gen.C07Skel in
+theorem C07_skeleton_update : skel_Sequence_update =
+    ["call seq.store.Get", "switch{", "case", "case", "return", "case", "}switch", "call seq.store.Set", "if{",
+      "return", "}if", "return"] := by decide
 
 /-- Non-vacuity: a history exercising restart, lease, release and all crash points, with its
 outputs. -/
